@@ -16,6 +16,17 @@
        element-wise denotation, for every fuel, every store and every well-formed expression: the C01_opt_*_sound
        theorems at the end of this file; the table as it was BEFORE the repairs (fx = false) is refuted rule by rule
        with concrete witnesses (C01_opt_*_refuted), among them the still unrepaired range<diagonal_matrix> rule;
+     * ORIENTATION-DEPENDENT RULES (C01OrientProofs.v): the specialisations whose result depends on the Orientation
+       template parameter - range / rows / row / trans / diag / scalar multiple / matrix-vector product of
+       vector_repeater<V, row_major | column_major> - are spelled out for BOTH orientations (the model's MRepeat carries
+       the orientation flag; the C01_opt_*_sound theorems quantify over it): which index range is applied to v, how
+       often the result is repeated, the orientation of the result, and the element denoted
+       (C01_opt_repeater_*_orientation); the orientation-blind variant of the range rule (range of v from the column
+       range, repetitions from the row range whatever the orientation - seeded change C01-5) is refuted for the
+       column-major repeater (C01_opt_repeater_range_orientation_blind_refuted).  The remaining orientation parameters
+       of the table do not influence a value: scalar_matrix<T,Device,Orientation> (no orientation in MConst),
+       vector_set<M, row_major|column_major> (C01_opt_fold_set_sound, both), matrix_concat<.,.,B> (flag kept / negated by
+       trans: C01_opt_mtrans_sound);
      * SPARSE VECTOR STORAGE AND KERNELS (C01SparseModel.v: compressed_vector as coded in cpu/sparse.hpp - sorted index
        array + value array + nnz + capacity, reserve / set_element / clear_range / clear - and the sparse cases of
        kernels/default/vector_assign.hpp, loop by loop over iterator positions; abstraction sden = zero where nothing
@@ -40,12 +51,30 @@
        model -, intersection iterator of a*b, scalar multiples, abs/sqr, unit_vector): the yielded sequence is sorted
        and denotes the documented value, so expressions are legal sources of all kernels
        (C01_sparse_expression_iterator_correct); the iterator before the repair is refuted on its input;
+   TIE OF THE RULE TABLE TO THE HEADER (every run, tools/c01_rules.py): (1) the set of specialisations equals the set
+   of arms of C01Opt.v; (2) RULE BODIES: the typedefs and the `create` body of every specialisation are translated
+   from expression_optimizers.hpp (index expressions incl. Orientation::index_M / index_m read from structure.hpp,
+   orientation / bool template arguments of the result type, argument order, eager element / inner-product values)
+   and interpreted on ~1000 instances (every rule, both orientations, non-square shapes, pairwise different indices,
+   structured children); the resulting term must be IDENTICAL to the one the extracted C01Opt.v functions - the very
+   functions of the C01_opt_*_sound theorems - return (driver command `O`).  Trusted there: the hand-written table of
+   constructor argument orders / accessor names of the expression classes.  REMORA_RANGE_CHECK preconditions delimit
+   the instances (range<diagonal_matrix>: only a = c, b = d, known finding C01-RANGEDIAG);
    COMPARED / MONITORED only (tools/c01.py, tools/c01_sparse.py): that the C++ implements these models - generated
    programs, exact comparison of compiled C++ (long/double, default kernels and CBLAS) against the extracted
    interpreter and an independent evaluator; for the sparse part command sequences (storage operations, kernels with
    six functors, plain / compound / noalias operator forms, mixed dense/sparse, both matrix orientations, nine shapes
    of sparse right-hand-side expressions) are run by harness/c01_sparse.cpp and by the extracted C01SparseExec.run_cmd and compared exactly INCLUDING capacities and the
    stored index sequences, with an independent monitor of the storage invariant and of the element-wise meaning.
+     * PROXY LAYER, ORIENTATION-COMPLETE (tools/c01_gen.py: ProxyLayer; own shards on every run): every proxy
+       (subrange, rows, columns, row, column, diag, trans) applied to every matrix form (dense row-/column-major,
+       repeat, outer_prod, to_diagonal, identity, scalar matrix, prod, A|B, A&B, matrix + scalar, repeat of a broadcast
+       vector) AND to trans(form) - the column-major repeater, swapped outer product, ... - alone or nested in scalar
+       multiples / unary / binary functions / sums / differences / scalar broadcasts and under a second proxy, with
+       non-square operands and off-diagonal, non-square, empty, single-line and full ranges, assigned with = += -= *=
+       (plain and noalias) to row- and column-major targets; one statement per stratum (proxy x form x orientation),
+       134 strata, compared three-way.  Strata without any compiling member are listed in EXCLUDED_STRATA (proxies other
+       than trans of a concatenation; rows / columns of a diagonal matrix; diag of a product = C01-DIAGPROD);
      * TRIANGULAR PRODUCTS: triangular_prod<tag>(A, v) / (A, B) are part of the deep embedding (constructor MTri =
        to_triangular; C01_triangular_prod_meaning); every C01_assign_* theorem covers them; generated in their own
        stream (all four tags, both orientations, compound noalias forms with scalar factors, plain forms) and, like
@@ -65,7 +94,7 @@
    `x -= a*b` with sparse a, b (compose functor lacks left/right_zero_remains) do not compile.
    `vden`/`mden` ARE the documented meaning (quickref/remora.rst), written as Gallina. *)
 From Coq Require Import ZArith List Bool Arith Lia.
-From SharkV Require Import C01Model C01Proofs C01Opt C01OptProofs C01SparseModel C01SparseProofs C01SparseFunProofs C01SparseMatModel C01SparseMatProofs C01SparseExpr C01SparseExprProofs C01BlockModel C01BlockProofs.
+From SharkV Require Import C01Model C01Proofs C01Opt C01OptProofs C01OrientProofs C01SparseModel C01SparseProofs C01SparseFunProofs C01SparseMatModel C01SparseMatProofs C01SparseExpr C01SparseExprProofs C01BlockModel C01BlockProofs.
 Import ListNotations.
 Open Scope Z_scope.
 
@@ -379,6 +408,83 @@ Theorem C01_opt_mrange_diag_refuted :
     mden s (opt_mrange false s fuel m a b c d) i j <> mden s (MRange m a b c d) i j.
 Proof. exact opt_mrange_diag_refuted. Qed.
 Print Assumptions C01_opt_mrange_diag_refuted.
+
+(* ---- rules whose result depends on the Orientation template parameter, for both orientations (C01OrientProofs.v).
+   MRepeat cm e k: cm = false is vector_repeater<V,row_major> (k rows equal to e), cm = true vector_repeater<V,column_major>
+   (k columns equal to e) *)
+Theorem C01_opt_repeater_range_orientation :
+  forall (s : env) (fuel : nat) (cm : bool) (e : vexp) (k a b c d : nat),
+    (* the rule: Orientation::index_m selects the range applied to v, index_M the number of repetitions *)
+    opt_mrange true s (S fuel) (MRepeat cm e k) a b c d =
+      MRepeat cm (opt_vrange true s fuel e (if cm then a else c) (if cm then b else d)) (if cm then (d - c)%nat else (b - a)%nat) /\
+    (mwf (MRange (MRepeat cm e k) a b c d) = true ->
+     mrows (opt_mrange true s fuel (MRepeat cm e k) a b c d) = (b - a)%nat /\
+     mcols (opt_mrange true s fuel (MRepeat cm e k) a b c d) = (d - c)%nat /\
+     forall i j, (i < b - a)%nat -> (j < d - c)%nat ->
+       mden s (opt_mrange true s fuel (MRepeat cm e k) a b c d) i j = vden s e (if cm then a + i else c + j)%nat).
+Proof. intros. split; [apply opt_mrange_repeater_eq | apply opt_mrange_repeater_den]. Qed.
+Print Assumptions C01_opt_repeater_range_orientation.
+
+Theorem C01_opt_repeater_range_orientation_blind_refuted :
+  exists (s0 : env) e k a b c d i j,
+    mwf (MRange (MRepeat true e k) a b c d) = true /\ (i < b - a)%nat /\ (j < d - c)%nat /\
+    mrows (MRepeat true (VRange e c d) (b - a)) <> mrows (MRange (MRepeat true e k) a b c d) /\
+    mden s0 (MRepeat true (VRange e c d) (b - a)) i j <> mden s0 (MRange (MRepeat true e k) a b c d) i j /\
+    (forall fuel, opt_mrange true s0 (S fuel) (MRepeat false e k) a b c d = MRepeat false (opt_vrange true s0 fuel e c d) (b - a)).
+Proof. exact range_repeater_orientation_blind_refuted. Qed.
+Print Assumptions C01_opt_repeater_range_orientation_blind_refuted.
+
+Theorem C01_opt_repeater_rows_row_orientation :
+  forall (s : env) (fuel : nat) (cm : bool) (e : vexp) (k a b r : nat),
+    opt_mrows true s (S fuel) (MRepeat cm e k) a b =
+      (if cm then MRepeat true (opt_vrange true s fuel e a b) k else MRepeat false e (b - a)) /\
+    opt_mrow true s (S fuel) (MRepeat cm e k) r = (if cm then VConst k (vden s e r) else e) /\
+    (mwf (MRows (MRepeat cm e k) a b) = true ->
+     mrows (opt_mrows true s fuel (MRepeat cm e k) a b) = (b - a)%nat /\
+     mcols (opt_mrows true s fuel (MRepeat cm e k) a b) = (if cm then k else vsize e) /\
+     forall i j, (i < b - a)%nat -> (j < (if cm then k else vsize e))%nat ->
+       mden s (opt_mrows true s fuel (MRepeat cm e k) a b) i j = vden s e (if cm then a + i else j)%nat) /\
+    (vwf (VRow (MRepeat cm e k) r) = true ->
+     vsize (opt_mrow true s fuel (MRepeat cm e k) r) = (if cm then k else vsize e) /\
+     forall j, (j < (if cm then k else vsize e))%nat ->
+       vden s (opt_mrow true s fuel (MRepeat cm e k) r) j = vden s e (if cm then r else j)).
+Proof.
+  intros. split; [apply opt_mrows_repeater_eq|]. split; [apply opt_mrow_repeater_eq|].
+  split; [apply opt_mrows_repeater_den | apply opt_mrow_repeater_den].
+Qed.
+Print Assumptions C01_opt_repeater_rows_row_orientation.
+
+Theorem C01_opt_repeater_trans_diag_scale_orientation :
+  forall (s : env) (fuel : nat) (cm : bool) (c : Z) (e : vexp) (k : nat),
+    opt_mtrans true s (S fuel) (MRepeat cm e k) = MRepeat (negb cm) e k /\
+    opt_mscale true s (S fuel) c (MRepeat cm e k) = MRepeat cm (opt_vscale true s fuel c e) k /\
+    (vwf e = true ->
+     vsize (opt_mdiag true s fuel (MRepeat cm e k)) = Nat.min (vsize e) k /\
+     forall i, (i < Nat.min (vsize e) k)%nat -> vden s (opt_mdiag true s fuel (MRepeat cm e k)) i = vden s e i).
+Proof.
+  intros. split; [apply opt_mtrans_repeater_eq|]. split; [apply opt_mscale_repeater_eq | apply opt_mdiag_repeater_den].
+Qed.
+Print Assumptions C01_opt_repeater_trans_diag_scale_orientation.
+
+Theorem C01_opt_repeater_mvprod_orientation :
+  forall (s : env) (fuel : nat) (cm : bool) (e : vexp) (k : nat) (v : vexp),
+    ((forall c w, v <> VScale c w) ->
+     opt_mvprod true s (S fuel) (MRepeat cm e k) v = if cm then VScale (sum_at s v) e else VConst k (inner_at s e v)) /\
+    (vwf (VMv 1 (MRepeat cm e k) v) = true ->
+     forall i, (i < (if cm then vsize e else k))%nat ->
+       vden s (opt_mvprod true s fuel (MRepeat cm e k) v) i =
+       if cm then vden s e i * sumn (vsize v) (vden s v) else sumn (vsize v) (fun j => vden s e j * vden s v j)).
+Proof. intros. split; [apply opt_mvprod_repeater_eq | apply opt_mvprod_repeater_den]. Qed.
+Print Assumptions C01_opt_repeater_mvprod_orientation.
+
+(* the premises are satisfiable: a column-major repeater of a 4-vector, 3 repetitions, an off-diagonal non-square block *)
+Example C01_opt_repeater_orientation_examples :
+  mwf (MRange (MRepeat true (VVar 0 4) 3) 1 4 0 2) = true /\
+  mwf (MRows (MRepeat true (VVar 0 4) 3) 1 3) = true /\ vwf (VRow (MRepeat false (VVar 0 4) 3) 2) = true /\
+  vwf (VMv 1 (MRepeat true (VVar 0 4) 3) (VVar 1 3)) = true /\
+  opt_mrange true empty_env 5 (MRepeat true (VVar 0 4) 3) 1 4 0 2 = MRepeat true (VRange (VVar 0 4) 1 4) 2 /\
+  opt_mrange true empty_env 5 (MRepeat false (VVar 0 4) 3) 1 3 0 2 = MRepeat false (VRange (VVar 0 4) 0 2) 2.
+Proof. repeat split. Qed.
 
 (* ======================================================================================================
    SPARSE STORAGE AND KERNELS (C01SparseModel.v; run next to harness/c01_sparse.cpp on every check)
